@@ -188,43 +188,54 @@ fn codec_rt_signature() {
 
 const H: [u8; 5] = [0, TOY251_SHORT_ID[0], TOY251_SHORT_ID[1], TOY251_SHORT_ID[2], TOY251_SHORT_ID[3]];
 
+/// v == exp, without a loop: the length, and the byte at an ARBITRARY (symbolic) index.
 fn bytes_eq<const K: usize>(v: &[u8], exp: &[u8; K]) -> bool {
     if v.len() != K {
         return false;
     }
-    let mut ok = true;
-    let mut i = 0;
-    while i < K {
-        if v[i] != exp[i] {
-            ok = false;
-        }
-        i += 1;
+    if K == 0 {
+        return true;
     }
-    ok
+    let i: usize = kani::any();
+    kani::assume(i < K);
+    v[i] == exp[i]
 }
 
-macro_rules! enc_dec {
-    ($x:expr, $ty:ty, $exp:expr) => {{
-        let x = $x;
-        let exp = $exp;
-        // (A)
-        match x.serialize() {
+/// (A) x.serialize() == Ok(enc(x))
+macro_rules! enc_is {
+    ($x:expr, $exp:expr) => {{
+        match $x.serialize() {
             Err(_) => {
                 assert!(false, "serialize failed on an encodable value");
             }
             Ok(bytes) => {
-                assert!(bytes_eq(&bytes, &exp), "serialize(x) != enc(x)");
+                assert!(bytes_eq(&bytes, &$exp), "serialize(x) != enc(x)");
             }
         }
-        // (B)
-        match <$ty>::deserialize(&exp) {
+    }};
+}
+/// (B) T::deserialize(enc(x)) == Ok(x).  The decoded value is forgotten, not dropped: dropping a BTreeMap
+/// costs CBMC minutes (the dying-tree navigation loops are unwound blindly) and is irrelevant here.
+macro_rules! dec_is {
+    ($x:expr, $ty:ty, $exp:expr) => {{
+        match <$ty>::deserialize(&$exp) {
             Err(_) => {
                 assert!(false, "deserialize(enc(x)) failed");
             }
             Ok(y) => {
-                assert!(y == x, "deserialize(enc(x)) != x");
+                assert!(y == $x, "deserialize(enc(x)) != x");
+                core::mem::forget(y);
             }
         }
+    }};
+}
+macro_rules! enc_dec {
+    ($x:expr, $ty:ty, $exp:expr) => {{
+        let x = $x;
+        let exp = $exp;
+        enc_is!(x, exp);
+        dec_is!(x, $ty, exp);
+        core::mem::forget(x);
     }};
 }
 
@@ -242,7 +253,7 @@ fn vss(v: Vec<E>) -> frost_core::keys::VerifiableSecretSharingCommitment<Toy251>
 
 // @harness name=codec_ab_secret_share_len2 props=C12 kind=bounded bound="commitment length 2" tier=quick backs="SecretShare: serialize(x) == enc(x) = hdr|id|share|len|c0|c1 and deserialize(enc(x)) == Ok(x), all ids / shares / non-identity commitments" expect=pass
 #[kani::proof]
-#[kani::unwind(12)]
+#[kani::unwind(8)]
 #[kani::stub(zeroize::barrier::optimization_barrier, noop_barrier)]
 fn codec_ab_secret_share_len2() {
     let (i, s, c0, c1) = (any_s_nz(), any_s(), any_e_nz(), any_e_nz());
@@ -252,7 +263,7 @@ fn codec_ab_secret_share_len2() {
 
 // @harness name=codec_ab_secret_share_len01 props=C12 kind=bounded bound="commitment lengths 0 and 1" tier=quick backs="SecretShare wire format + decode, as codec_ab_secret_share_len2" expect=pass
 #[kani::proof]
-#[kani::unwind(12)]
+#[kani::unwind(8)]
 #[kani::stub(zeroize::barrier::optimization_barrier, noop_barrier)]
 fn codec_ab_secret_share_len01() {
     let (i, s, c0) = (any_s_nz(), any_s(), any_e_nz());
@@ -274,86 +285,155 @@ fn pkp1(a: E, k: E, min_signers: Option<u16>) -> PublicKeyPackage<Toy251> {
     PublicKeyPackage::<Toy251>::new(m, vkey(k), min_signers)
 }
 
-// @harness name=codec_ab_public_key_package_some props=C12,C13 kind=bounded bound="2 entries with the concrete keys 1, 2; min_signers = Some(t), t < 128" tier=quick backs="PublicKeyPackage (custom Deserialize, serialization.rs:259-490): serialize(x) == hdr|n|(id,vs)*|vk|1|t and deserialize(enc(x)) == Ok(x)" expect=pass
+// BTreeMap-carrying types: (A) and (B) are separate harnesses, because decoding into a BTreeMap costs CBMC
+// ~200 s even for one entry with a concrete key (B-tree code is pointer-heavy; the error paths drop a
+// partially built map).  (A) is quick tier, (B) thorough tier.  The byte arrays are written once, in `*_enc`.
+
+fn pkp2_enc_some(a: E, b: E, k: E, t: u16) -> [u8; 13] {
+    [H[0], H[1], H[2], H[3], H[4], 2, 1, a.0, 2, b.0, k.0, 1, t as u8]
+}
+fn pkp2_enc_none(a: E, b: E, k: E) -> [u8; 11] {
+    [H[0], H[1], H[2], H[3], H[4], 2, 1, a.0, 2, b.0, k.0]
+}
+
+// @harness name=codec_enc_public_key_package props=C12,C13 kind=bounded bound="2 entries with the concrete keys 1, 2; min_signers = Some(t), t < 128, and None" tier=quick backs="PublicKeyPackage lemma (A): serialize(x) == hdr|n|(id,vs)*|vk|1|t; None is encoded by OMITTING the field (pre-3.0 format)" expect=pass
 #[kani::proof]
-#[kani::unwind(16)]
-fn codec_ab_public_key_package_some() {
+#[kani::unwind(8)]
+fn codec_enc_public_key_package() {
     let (a, b, k, t) = (any_e_nz(), any_e_nz(), any_e_nz(), any_small_u16());
     let x = pkp2(a, b, k, Some(t));
-    enc_dec!(
-        x,
-        PublicKeyPackage<Toy251>,
-        [H[0], H[1], H[2], H[3], H[4], 2, 1, a.0, 2, b.0, k.0, 1, t as u8]
-    );
+    enc_is!(x, pkp2_enc_some(a, b, k, t));
+    core::mem::forget(x);
+    let x = pkp2(a, b, k, None);
+    enc_is!(x, pkp2_enc_none(a, b, k));
+    core::mem::forget(x);
 }
 
-// @harness name=codec_ab_public_key_package_none props=C12,C13 kind=bounded bound="2 entries with the concrete keys 1, 2; min_signers = None" tier=quick backs="PublicKeyPackage legacy (pre-3.0) format: None is encoded by OMITTING the field (hdr|n|(id,vs)*|vk) and such an encoding decodes with min_signers == None" expect=pass
+// @harness name=codec_dec_public_key_package_some props=C12,C13 kind=bounded bound="2 entries with the concrete keys 1, 2; min_signers = Some(t), t < 128" tier=thorough backs="PublicKeyPackage lemma (B) (custom Deserialize, serialization.rs:259-490): deserialize(enc(x)) == Ok(x)" expect=pass
 #[kani::proof]
-#[kani::unwind(16)]
-fn codec_ab_public_key_package_none() {
+#[kani::unwind(8)]
+fn codec_dec_public_key_package_some() {
+    let (a, b, k, t) = (any_e_nz(), any_e_nz(), any_e_nz(), any_small_u16());
+    let x = pkp2(a, b, k, Some(t));
+    dec_is!(x, PublicKeyPackage<Toy251>, pkp2_enc_some(a, b, k, t));
+    core::mem::forget(x);
+}
+
+// @harness name=codec_dec_public_key_package_none props=C12,C13 kind=bounded bound="2 entries with the concrete keys 1, 2; threshold absent" tier=thorough backs="PublicKeyPackage lemma (B), legacy format: an encoding without threshold decodes to the value with min_signers == None" expect=pass
+#[kani::proof]
+#[kani::unwind(8)]
+fn codec_dec_public_key_package_none() {
     let (a, b, k) = (any_e_nz(), any_e_nz(), any_e_nz());
     let x = pkp2(a, b, k, None);
-    enc_dec!(x, PublicKeyPackage<Toy251>, [H[0], H[1], H[2], H[3], H[4], 2, 1, a.0, 2, b.0, k.0]);
+    dec_is!(x, PublicKeyPackage<Toy251>, pkp2_enc_none(a, b, k));
+    core::mem::forget(x);
 }
 
-// @harness name=codec_ab_public_key_package_small props=C12,C13 kind=bounded bound="0 and 1 entries (key 1); min_signers = Some(t < 128) and None" tier=quick backs="PublicKeyPackage wire format + decode, small maps" expect=pass
+// @harness name=codec_enc_public_key_package_small props=C12,C13 kind=bounded bound="0 and 1 entries (key 1); min_signers = Some(t < 128) and None" tier=quick backs="PublicKeyPackage lemma (A), small maps" expect=pass
 #[kani::proof]
-#[kani::unwind(16)]
-fn codec_ab_public_key_package_small() {
+#[kani::unwind(8)]
+fn codec_enc_public_key_package_small() {
     let (a, k, t) = (any_e_nz(), any_e_nz(), any_small_u16());
-    enc_dec!(pkp1(a, k, Some(t)), PublicKeyPackage<Toy251>, [H[0], H[1], H[2], H[3], H[4], 1, 1, a.0, k.0, 1, t as u8]);
-    enc_dec!(pkp1(a, k, None), PublicKeyPackage<Toy251>, [H[0], H[1], H[2], H[3], H[4], 1, 1, a.0, k.0]);
-    let x0 = PublicKeyPackage::<Toy251>::new(BTreeMap::new(), vkey(k), Some(t));
-    enc_dec!(x0, PublicKeyPackage<Toy251>, [H[0], H[1], H[2], H[3], H[4], 0, k.0, 1, t as u8]);
+    let x = pkp1(a, k, Some(t));
+    enc_is!(x, [H[0], H[1], H[2], H[3], H[4], 1, 1, a.0, k.0, 1, t as u8]);
+    core::mem::forget(x);
+    let x = pkp1(a, k, None);
+    enc_is!(x, [H[0], H[1], H[2], H[3], H[4], 1, 1, a.0, k.0]);
+    core::mem::forget(x);
+    let x = PublicKeyPackage::<Toy251>::new(BTreeMap::new(), vkey(k), Some(t));
+    enc_is!(x, [H[0], H[1], H[2], H[3], H[4], 0, k.0, 1, t as u8]);
+    core::mem::forget(x);
+}
+
+// @harness name=codec_dec_public_key_package_small props=C12,C13 kind=bounded bound="0 entries with Some(t < 128); 1 entry (key 1) with None" tier=thorough backs="PublicKeyPackage lemma (B), small maps" expect=pass
+#[kani::proof]
+#[kani::unwind(8)]
+fn codec_dec_public_key_package_small() {
+    let (a, k, t) = (any_e_nz(), any_e_nz(), any_small_u16());
+    let x = pkp1(a, k, None);
+    dec_is!(x, PublicKeyPackage<Toy251>, [H[0], H[1], H[2], H[3], H[4], 1, 1, a.0, k.0]);
+    core::mem::forget(x);
+    let x = PublicKeyPackage::<Toy251>::new(BTreeMap::new(), vkey(k), Some(t));
+    dec_is!(x, PublicKeyPackage<Toy251>, [H[0], H[1], H[2], H[3], H[4], 0, k.0, 1, t as u8]);
+    core::mem::forget(x);
 }
 
 fn sc(h: E, b: E) -> SigningCommitments<Toy251> {
     SigningCommitments::<Toy251>::new(NonceCommitment::<Toy251>::new(h), NonceCommitment::<Toy251>::new(b))
 }
-
-// @harness name=codec_ab_signing_package props=C12 kind=bounded bound="2 entries (concrete keys 1, 2), message length 2" tier=quick backs="SigningPackage: serialize(x) == hdr|n|(id|hdr|D|E)*|mlen|msg and deserialize(enc(x)) == Ok(x), all commitment values and message bytes" expect=pass
-#[kani::proof]
-#[kani::unwind(28)]
-fn codec_ab_signing_package() {
-    let (d1, e1, d2, e2) = (any_e_nz(), any_e_nz(), any_e_nz(), any_e_nz());
-    let msg: [u8; 2] = kani::any();
+fn sp2(d1: E, e1: E, d2: E, e2: E, msg: &[u8]) -> SigningPackage<Toy251> {
     let mut m = BTreeMap::new();
     m.insert(id(1), sc(d1, e1));
     m.insert(id(2), sc(d2, e2));
-    let x = SigningPackage::<Toy251>::new(m, &msg);
-    enc_dec!(
-        x,
-        SigningPackage<Toy251>,
-        [
-            H[0], H[1], H[2], H[3], H[4], 2, //
-            1, H[0], H[1], H[2], H[3], H[4], d1.0, e1.0, //
-            2, H[0], H[1], H[2], H[3], H[4], d2.0, e2.0, //
-            2, msg[0], msg[1]
-        ]
-    );
+    SigningPackage::<Toy251>::new(m, msg)
+}
+fn sp2_enc(d1: E, e1: E, d2: E, e2: E, msg: [u8; 2]) -> [u8; 25] {
+    [
+        H[0], H[1], H[2], H[3], H[4], 2, //
+        1, H[0], H[1], H[2], H[3], H[4], d1.0, e1.0, //
+        2, H[0], H[1], H[2], H[3], H[4], d2.0, e2.0, //
+        2, msg[0], msg[1],
+    ]
+}
+fn sp1(d1: E, e1: E, msg: &[u8]) -> SigningPackage<Toy251> {
+    let mut m = BTreeMap::new();
+    m.insert(id(1), sc(d1, e1));
+    SigningPackage::<Toy251>::new(m, msg)
+}
+fn sp1_enc(d1: E, e1: E, msg: [u8; 1]) -> [u8; 16] {
+    [H[0], H[1], H[2], H[3], H[4], 1, 1, H[0], H[1], H[2], H[3], H[4], d1.0, e1.0, 1, msg[0]]
 }
 
-// @harness name=codec_ab_signing_package_small props=C12 kind=bounded bound="(entries, message length) in {(0,0), (1,1)}" tier=quick backs="SigningPackage wire format + decode, small shapes" expect=pass
+// @harness name=codec_enc_signing_package props=C12 kind=bounded bound="2 entries (concrete keys 1, 2), message length 2" tier=quick backs="SigningPackage lemma (A): serialize(x) == hdr|n|(id|hdr|D|E)*|mlen|msg, all commitment values and message bytes" expect=pass
 #[kani::proof]
-#[kani::unwind(28)]
-fn codec_ab_signing_package_small() {
+#[kani::unwind(8)]
+fn codec_enc_signing_package() {
+    let (d1, e1, d2, e2) = (any_e_nz(), any_e_nz(), any_e_nz(), any_e_nz());
+    let msg: [u8; 2] = kani::any();
+    let x = sp2(d1, e1, d2, e2, &msg);
+    enc_is!(x, sp2_enc(d1, e1, d2, e2, msg));
+    core::mem::forget(x);
+}
+
+// @harness name=codec_dec_signing_package props=C12 kind=bounded bound="2 entries (concrete keys 1, 2), message length 2" tier=thorough backs="SigningPackage lemma (B): deserialize(enc(x)) == Ok(x)" expect=pass
+#[kani::proof]
+#[kani::unwind(8)]
+fn codec_dec_signing_package() {
+    let (d1, e1, d2, e2) = (any_e_nz(), any_e_nz(), any_e_nz(), any_e_nz());
+    let msg: [u8; 2] = kani::any();
+    let x = sp2(d1, e1, d2, e2, &msg);
+    dec_is!(x, SigningPackage<Toy251>, sp2_enc(d1, e1, d2, e2, msg));
+    core::mem::forget(x);
+}
+
+// @harness name=codec_enc_signing_package_small props=C12 kind=bounded bound="(entries, message length) in {(0,0), (1,1)}" tier=quick backs="SigningPackage lemma (A), small shapes" expect=pass
+#[kani::proof]
+#[kani::unwind(8)]
+fn codec_enc_signing_package_small() {
     let (d1, e1) = (any_e_nz(), any_e_nz());
     let msg: [u8; 1] = kani::any();
     let x = SigningPackage::<Toy251>::new(BTreeMap::new(), &[]);
-    enc_dec!(x, SigningPackage<Toy251>, [H[0], H[1], H[2], H[3], H[4], 0, 0]);
-    let mut m = BTreeMap::new();
-    m.insert(id(1), sc(d1, e1));
-    let x = SigningPackage::<Toy251>::new(m, &msg);
-    enc_dec!(
-        x,
-        SigningPackage<Toy251>,
-        [H[0], H[1], H[2], H[3], H[4], 1, 1, H[0], H[1], H[2], H[3], H[4], d1.0, e1.0, 1, msg[0]]
-    );
+    enc_is!(x, [H[0], H[1], H[2], H[3], H[4], 0, 0]);
+    core::mem::forget(x);
+    let x = sp1(d1, e1, &msg);
+    enc_is!(x, sp1_enc(d1, e1, msg));
+    core::mem::forget(x);
+}
+
+// @harness name=codec_dec_signing_package_small props=C12 kind=bounded bound="(entries, message length) = (1,1)" tier=thorough backs="SigningPackage lemma (B), small shape" expect=pass
+#[kani::proof]
+#[kani::unwind(8)]
+fn codec_dec_signing_package_small() {
+    let (d1, e1) = (any_e_nz(), any_e_nz());
+    let msg: [u8; 1] = kani::any();
+    let x = sp1(d1, e1, &msg);
+    dec_is!(x, SigningPackage<Toy251>, sp1_enc(d1, e1, msg));
+    core::mem::forget(x);
 }
 
 // @harness name=codec_ab_dkg_round1_package props=C12 kind=bounded bound="commitment length 2" tier=quick backs="keys::dkg::round1::Package: serialize(x) == hdr|len|c*|2|R|z (proof of knowledge as length-prefixed Signature bytes) and deserialize(enc(x)) == Ok(x)" expect=pass
 #[kani::proof]
-#[kani::unwind(14)]
+#[kani::unwind(8)]
 #[kani::stub(std::fmt::format, stub_format)]
 fn codec_ab_dkg_round1_package() {
     let (c0, c1, r, z) = (any_e_nz(), any_e_nz(), any_e_nz(), any_s());
@@ -367,7 +447,7 @@ fn codec_ab_dkg_round1_package() {
 
 // @harness name=codec_ab_dkg_round1_package_len1 props=C12 kind=bounded bound="commitment length 1" tier=quick backs="keys::dkg::round1::Package wire format + decode" expect=pass
 #[kani::proof]
-#[kani::unwind(14)]
+#[kani::unwind(8)]
 #[kani::stub(std::fmt::format, stub_format)]
 fn codec_ab_dkg_round1_package_len1() {
     let (c0, r, z) = (any_e_nz(), any_e_nz(), any_s());
@@ -377,7 +457,7 @@ fn codec_ab_dkg_round1_package_len1() {
 
 // @harness name=codec_ab_dkg_round1_secret_package props=C12,C13 kind=bounded bound="coefficients length 2, commitment length 2; min_signers, max_signers < 128" tier=quick backs="keys::dkg::round1::SecretPackage (state kept between DKG rounds; NO header on the wire): serialize(x) == id|n|coef*|m|comm*|min|max and deserialize(enc(x)) == Ok(x)" expect=pass
 #[kani::proof]
-#[kani::unwind(12)]
+#[kani::unwind(8)]
 #[kani::stub(zeroize::barrier::optimization_barrier, noop_barrier)]
 fn codec_ab_dkg_round1_secret_package() {
     let (i, a0, a1, c0, c1) = (any_s_nz(), any_s(), any_s(), any_e_nz(), any_e_nz());
@@ -394,7 +474,7 @@ fn codec_ab_dkg_round1_secret_package() {
 // |commitment| == |coefficients| - 1.
 // @harness name=codec_ab_dkg_round1_secret_package_refresh props=C13 kind=bounded bound="(coefficients, commitment) lengths (2,1) and (3,2); min_signers, max_signers < 128" tier=quick backs="refresh_dkg_part1 state: dkg::round1::SecretPackage whose commitment lacks the identity entry: wire format + decode" expect=pass
 #[kani::proof]
-#[kani::unwind(12)]
+#[kani::unwind(8)]
 #[kani::stub(zeroize::barrier::optimization_barrier, noop_barrier)]
 fn codec_ab_dkg_round1_secret_package_refresh() {
     let (i, a1, a2, c1, c2) = (any_s_nz(), any_s(), any_s(), any_e_nz(), any_e_nz());
@@ -411,7 +491,7 @@ fn codec_ab_dkg_round1_secret_package_refresh() {
 
 // @harness name=codec_ab_dkg_round2_secret_package props=C12,C13 kind=bounded bound="commitment length 2; min_signers, max_signers < 128" tier=quick backs="keys::dkg::round2::SecretPackage (state kept between DKG rounds; no header): serialize(x) == id|m|comm*|share|min|max and deserialize(enc(x)) == Ok(x)" expect=pass
 #[kani::proof]
-#[kani::unwind(12)]
+#[kani::unwind(8)]
 #[kani::stub(zeroize::barrier::optimization_barrier, noop_barrier)]
 fn codec_ab_dkg_round2_secret_package() {
     let (i, c0, c1, s) = (any_s_nz(), any_e_nz(), any_e_nz(), any_s());
@@ -514,9 +594,9 @@ fn codec_header_negctl() {
 // an invalid option tag (>= 2) or a truncated varint is swallowed into None (serialization.rs:390-393),
 // and postcard ignores trailing bytes.  So the variable-size encoding is not canonical (C12 restricts
 // canonicity to fixed-size encodings; stated here so that it is not mistaken for a gap).
-// @harness name=codec_pkp_threshold_tail_lenient props=C12 kind=bounded bound="1 map entry (key 1); tail of 0..=2 arbitrary bytes after the verifying key" tier=quick backs="PublicKeyPackage::deserialize: a decode error of the optional threshold is swallowed into min_signers == None; never Err" expect=pass
+// @harness name=codec_pkp_threshold_tail_lenient props=C12 kind=bounded bound="1 map entry (key 1); tail of 0..=2 arbitrary bytes after the verifying key" tier=thorough backs="PublicKeyPackage::deserialize: a decode error of the optional threshold is swallowed into min_signers == None; never Err" expect=pass
 #[kani::proof]
-#[kani::unwind(16)]
+#[kani::unwind(8)]
 fn codec_pkp_threshold_tail_lenient() {
     let (a, k) = (any_e_nz(), any_e_nz());
     let t: [u8; 2] = kani::any();
@@ -539,6 +619,7 @@ fn codec_pkp_threshold_tail_lenient() {
                     // tag Some but the varint is missing (tl == 1) or runs past the end (t[1] >= 128): swallowed
                     assert!(y.min_signers().is_none());
                 }
+                core::mem::forget(y);
             }
         }
         tl += 1;
